@@ -113,6 +113,27 @@ def shrink(prop, line, fails):
     return best
 
 
+def source_tie(pid):
+    """How every library function of the files this property's model relies on is tied to the Coq development on THIS
+    run (tools/inventory.py: the generators are run with a registry switched on): translated = body compiled to Gallina
+    and proved equal to the hand model; inlined = helper inlined into a translated caller; pinned = hand-modelled, any
+    edit is a GEN-ERROR; data = constants / arms / shapes regenerated, body tied by the correspondence runs; untied =
+    correspondence only (or not compiled on this platform)."""
+    rc, out = core.sh([sys.executable, os.path.join(core.VERIF, "tools", "inventory.py"), "--json", os.path.join(core.CACHE, "inventory-%s.json" % pid)], timeout=120)
+    try:
+        inv = json.load(open(os.path.join(core.CACHE, "inventory-%s.json" % pid)))
+    except (OSError, ValueError):
+        return {"error": "tools/inventory.py failed: " + out[-300:]}
+    files = shapedeps.shape_files(pid)
+    rows = [r for r in inv["functions"] if r["file"] in files]
+    counts = {}
+    for r in rows:
+        counts[r["class"]] = counts.get(r["class"], 0) + 1
+    return {"files": files, "functions": len(rows), "by_class": counts,
+            "not_translated": ["%s %s (%s)" % (r["file"], r["fn"], r["class"]) for r in rows if r["class"] not in ("translated", "inlined")],
+            "whole_workspace": inv["total"]}
+
+
 def run(prop, tier, seed, replay=None):
     t0 = time.time()
     pid = prop.pid
@@ -369,6 +390,7 @@ def run(prop, tier, seed, replay=None):
         "impl_builds": [l for l, _ in impls],
         "known_findings_reproduced": len(known_lines),
     }
+    coverage["source_tie"] = source_tie(pid)
     coverage.update({k: v for k, v in extra_coverage.items() if k not in coverage})
     coverage.update(prop.extra_coverage())
     coverage.update(prop.coverage_extra())
